@@ -336,6 +336,13 @@ package interpreter
 //@ ensures [Return.signal] case *ast.Return: ret.Value != nil && sigT(0) != 0 ==> result1 == evSig(0) [C04]
 //@ ensures [Return.value] case *ast.Return: ret.Value != nil && sigT(0) == 0 ==> result1.Type == 3 && result1.Value == evVal(0) && result1.LineNumber == ret.Keyword.Line [C04,C06]
 
+//@ ensures [Block.scope] case *ast.BlockStmt: evN() > 0 ==> !old(envAllocated(now(evEnv(0)))) && envParent(evEnv(0)) == env && !old(mapAllocated(now(envTable(evEnv(0))))) [C03]
+//@ ensures [Block.first] case *ast.BlockStmt: evN() > 0 ==> freshScopePre(0, old(curMD()), old(curMV()), old(curMC()), old(curEV()), old(curOut()), old(curErr()), old(curFlag()), envTable(evEnv(0))) [C03]
+//@ ensures [Block.events] case *ast.BlockStmt: evN() <= len(blk.Block) && forall(k, 0, evN(), evalAt(k, blk.Block[k], evEnv(0), isRepl)) && forall(k, 1, evN(), follows(k)) && forall(k, 0, evN()-1, live(k)) [C03,C04,C05,C14]
+//@ ensures [Block.last] case *ast.BlockStmt: evN() > 0 ==> stateIsPost(evN()-1) && (sigT(evN()-1) != 0 ==> result1 == evSig(evN()-1)) && (sigT(evN()-1) == 0 ==> result1.Type == 0) [C04,C05]
+//@ ensures [Block.complete] case *ast.BlockStmt: evN() < len(blk.Block) ==> evN() > 0 && !live(evN()-1) [C05,C06]
+//@ ensures [Block.empty] case *ast.BlockStmt: len(blk.Block) == 0 ==> evN() == 0 && result1.Type == 0 [C05]
+
 //@ loop 1:
 //@   invariant [flagmono] old(utils.HadRuntimeError) ==> utils.HadRuntimeError
 //@ loop 2:
@@ -347,6 +354,13 @@ package interpreter
 //@   invariant [flagmono] old(utils.HadRuntimeError) ==> utils.HadRuntimeError
 //@ loop 5:
 //@   invariant [flagmono] old(utils.HadRuntimeError) ==> utils.HadRuntimeError
+//@   invariant [log] evN() == iter
+//@   invariant [scope] newEnv != nil && !old(envAllocated(now(newEnv))) && envParent(newEnv) == env && !old(mapAllocated(now(envTable(newEnv))))
+//@   invariant [events] forall(k, 0, iter, evalAt(k, blk.Block[k], newEnv, isRepl) && live(k))
+//@   invariant [chain] forall(k, 1, iter, follows(k))
+//@   invariant [first] iter > 0 ==> freshScopePre(0, old(curMD()), old(curMV()), old(curMC()), old(curEV()), old(curOut()), old(curErr()), old(curFlag()), envTable(newEnv))
+//@   invariant [now] iter > 0 ==> stateIsPost(iter-1)
+//@   invariant [start] iter == 0 ==> curMD() == store(old(curMD()), envTable(newEnv), emptyDom) && curMV() == old(curMV()) && curMC() == store(old(curMC()), envTable(newEnv), 0) && curEV() == old(curEV()) && stdoutN == old(stdoutN) && stderrN == old(stderrN) && utils.HadRuntimeError == old(utils.HadRuntimeError)
 //@ loop 6:
 //@   invariant [flagmono] old(utils.HadRuntimeError) ==> utils.HadRuntimeError
 //@ loop 7:
